@@ -235,3 +235,51 @@ Example C09_witness_find_state :
   state_after (op_find (fun (x : Z) (i : nat) => if x =? 7 then Raise 1 else Ok false) false) 0%nat [1; 2]
   = Some 2%nat.
 Proof. vm_compute. reflexivity. Qed.
+
+(* ---- take_while_indexed and to_dict at run level (Ops/FirstRaise2.v) ------------------------------------ *)
+From RxVerif Require Import Ops.FirstRaise2.
+
+(* to_dict, step-level routing: the key mapper raising; the element mapper raising after the key mapper returned *)
+Theorem C09_route_to_dict_key : forall A K V keq (key : A -> res K) (el : A -> res V) d x e,
+  key x = Raise e -> m_next (op_to_dict keq key el) d x = (d, [], Fail e).
+Proof. exact @raise_to_dict_key. Qed.
+Print Assumptions C09_route_to_dict_key.
+Theorem C09_route_to_dict_elem : forall A K V keq (key : A -> res K) (el : A -> res V) d x k e,
+  key x = Ok k -> el x = Raise e -> m_next (op_to_dict keq key el) d x = (d, [], Fail e).
+Proof. exact @raise_to_dict_elem. Qed.
+Print Assumptions C09_route_to_dict_elem.
+
+(* take_while_indexed: the predicate returned True on pre (called with the indices 0, 1, ...), so all of pre
+   was forwarded; it raises on x at index |pre|: the error follows, and nothing after it *)
+Theorem C09_run_take_while_indexed : forall A (p : A -> nat -> res bool) inc pre x post tl e,
+  trues_i p 0 pre -> p x (length pre) = Raise e ->
+  exec (op_take_while_indexed p inc) (map Next (pre ++ x :: post) ++ tl)
+  = nexts (indexed 1 pre) ++ [(S (length pre), Err e)].
+Proof. exact @take_while_indexed_first_raise. Qed.
+Print Assumptions C09_run_take_while_indexed.
+
+(* to_dict: both mappers returned on pre; on x the key mapper raises, or it returns and the element mapper
+   raises: the error is the ONLY output (no dictionary is delivered), whatever follows *)
+Theorem C09_run_to_dict : forall A K V keq (key : A -> res K) (el : A -> res V) pre x post tl e,
+  both_ok key el pre ->
+  (key x = Raise e \/ exists k, key x = Ok k /\ el x = Raise e) ->
+  exec (op_to_dict keq key el) (map Next (pre ++ x :: post) ++ tl) = [(S (length pre), Err e)].
+Proof. exact @to_dict_first_raise. Qed.
+Print Assumptions C09_run_to_dict.
+
+(* non-vacuity: a predicate raising at index 2; an element mapper raising on the third element *)
+Example C09_witness_take_while_indexed :
+  let p := fun (x : Z) (i : nat) => if Nat.eqb i 2 then Raise 5 else Ok (x <? 10) in
+  trues_i p 0 [1; 2] /\ p 3 (length [1; 2]) = Raise 5
+  /\ exec (op_take_while_indexed p true) (map Next ([1; 2] ++ 3 :: [4]) ++ [Done; Next 9])
+     = [(1%nat, Next 1); (2%nat, Next 2); (3%nat, Err 5)].
+Proof. vm_compute. repeat split; reflexivity. Qed.
+Example C09_witness_to_dict_elem :
+  let key := fun x : Z => Ok (x mod 2) in
+  let el := fun x : Z => if x =? 7 then Raise 4 else Ok (x * 10) in
+  both_ok key el [1; 2] /\ key 7 = Ok 1 /\ el 7 = Raise 4
+  /\ exec (op_to_dict Z.eqb key el) (map Next ([1; 2] ++ 7 :: [8]) ++ [Done]) = [(3%nat, Err 4)].
+Proof.
+  split; [|vm_compute; repeat split; reflexivity].
+  repeat constructor; eexists; reflexivity.
+Qed.
